@@ -133,10 +133,19 @@ theorem zipEdges_top (cmp : TextCmp) : ∀ (xs ys : List FNode),
     have h1 := zipEdges_node cmp x y (fedgesList xs) (fedgesList ys)
     simp only [fedgesList, h1, zipEdges_top cmp xs ys, forestEqv]
 
-/-- `advanced_deep_equal` is structural equality of the filtered forests. -/
-theorem advancedDeepEqual_eq (f : NodeFilter) (cmp : TextCmp) (a b : Tree) :
+/-- `advanced_deep_equal` on two normal nodes is structural equality of the filtered forests. -/
+theorem advancedDeepEqual_eq (f : NodeFilter) (cmp : TextCmp) (a b : Tree)
+    (na : a.value.isNormal = true) (nb : b.value.isNormal = true) :
     advancedDeepEqual f cmp a b = forestEqv cmp (proj f a) (proj f b) := by
   unfold advancedDeepEqual
+  simp only [na, nb, Bool.not_true, Bool.or_self, Bool.false_eq_true, ↓reduceIte]
   rw [traverse_filter_eq, traverse_filter_eq, zipEdges_top]
+
+/-- … and the direct value comparison as soon as one of them is an attribute / namespace node. -/
+theorem advancedDeepEqual_abnormal (f : NodeFilter) (cmp : TextCmp) (a b : Tree)
+    (h : ¬ a.value.isNormal = true ∨ ¬ b.value.isNormal = true) :
+    advancedDeepEqual f cmp a b = compareValue cmp a b := by
+  unfold advancedDeepEqual
+  rcases h with h | h <;> simp [h]
 
 end XotModel
